@@ -846,9 +846,11 @@ impl<'de, R: Read<'de>> Parser<R> {
     /// the postfix keyword syntax is enabled, and into a symbol token
     /// otherwise.
     fn symbol_or_postfix_keyword(&self, mut name: String) -> Token {
+        // A lone dot is not a valid name, so `.:` stays a symbol.
         if self.options.keyword_syntax(KeywordSyntax::ColonPostfix)
             && name.len() > 1
             && name.ends_with(':')
+            && name != ".:"
         {
             name.pop();
             Token::Keyword(name.into())
